@@ -212,6 +212,8 @@ pub struct Stats {
     pub nested_runs: u64,
     pub nested_failures: u64,
     pub nested_incomplete: u64,
+    /// deepest chain of recursive references being evaluated at once
+    pub max_rec_depth: usize,
 }
 
 pub struct Model<'a> {
@@ -224,6 +226,7 @@ pub struct Model<'a> {
     pub stats: Stats,
     /// bodies of the enclosing `Rec` nodes (innermost last), addressed by `p.n`
     defs: Vec<(u8, &'a G)>,
+    rec_depth: usize,
     depth: usize,
     /// number of successful recoveries so far (for A9)
     recovered: u32,
@@ -278,6 +281,7 @@ pub fn run_opts3(g: &G, w: &[char], st0: St, budget: u64, wrap: bool, wrap_slice
         trace: vec![],
         stats: Stats::default(),
         defs: vec![],
+        rec_depth: 0,
         depth: 0,
         recovered: 0,
         wrap,
@@ -1091,7 +1095,13 @@ impl<'a> Model<'a> {
             Ref => {
                 let body = self.defs.iter().rev().find(|(n, _)| *n == g.p.n).map(|(_, b)| *b);
                 match body {
-                    Some(b) => self.ev(b, p, st, cx),
+                    Some(b) => {
+                        self.rec_depth += 1;
+                        self.stats.max_rec_depth = self.stats.max_rec_depth.max(self.rec_depth);
+                        let r = self.ev(b, p, st, cx);
+                        self.rec_depth -= 1;
+                        r
+                    }
                     None => panic!("unbound recursion reference r{}", g.p.n),
                 }
             }
